@@ -416,7 +416,7 @@ func ruleReopenState(c *Ctx, r *Report, prefix string) {
 					reset = true
 				}
 			}
-			key := it.typ + ".Reopen:" + st.Field(i).Name()
+			key := it.typ + ".Reopen:" + refNameOf(st.Field(i))
 			r.Check(reset, rule, key, c.Pos(reopen.Pos()), "re-armed by Reopen (changed by "+who+")",
 				fmt.Sprintf("%s.%s is changed by %s but not set by Reopen on its successful paths: the reused object starts the next chunk with stale state", it.typ, st.Field(i).Name(), who))
 		}
